@@ -32,12 +32,18 @@ func (a *config) MergeSpoc(d deviceconf.Config) deviceconf.Config {
 			// Position where next rule from raw is prepended.
 			// This preserves the order of multiple prepended rules.
 			prepend := 0
+			// Position of previously appended rule.
+			appended := -1
 			for _, ru := range bChain.rules {
 				i := prepend
 				if !ru.append {
 					prepend++
 				}
-				if ru.append {
+				if ru.append && appended >= 0 {
+					// Preserve order of multiple appended rules.
+					i = appended + 1
+					appended = i
+				} else if ru.append {
 					// Append before last non DROP line.
 					i = len(aChain.rules)
 					for i > 0 {
@@ -47,6 +53,7 @@ func (a *config) MergeSpoc(d deviceconf.Config) deviceconf.Config {
 							break
 						}
 					}
+					appended = i
 				}
 				aChain.rules = slices.Insert(aChain.rules, i, ru)
 			}
